@@ -177,6 +177,21 @@ pub fn configs(prop: &str, thorough: bool) -> Vec<SimConfig> {
             c.max_depth = Some(if thorough { 16 } else { 11 });
             v.push(c);
         }
+        "C01" => {
+            // pool level of C01's last sentence: histories in which nothing breaks and nothing is cancelled
+            for preempt in [true, false] {
+                for h1_only in [false, true] {
+                    let mut c = full(&format!("n3-nothing-breaks-preempt-{preempt}{}", if h1_only { "-h1-only-protocol" } else { "" }), 3, preempt);
+                    c.ev_cancel = false;
+                    c.ev_dial_fail = false;
+                    c.ev_close = false;
+                    c.h1_only_protocol = h1_only;
+                    c.macro_finish = true;
+                    c.max_depth = Some(if thorough { 20 } else { 14 });
+                    v.push(c);
+                }
+            }
+        }
         "C05" => {
             for it in [None, Some(0u64), Some(1)] {
                 let mut c = full(&format!("n2-timeout-{it:?}"), 2, true);
@@ -397,7 +412,7 @@ pub(crate) fn replay_json(cfg: &SimConfig, hist: &[Ev]) -> serde_json::Value {
             "name": cfg.name, "origins": cfg.origins, "max_requests": cfg.max_requests, "allow_h1": cfg.allow_h1, "allow_h2": cfg.allow_h2,
             "continue_after_preemption": cfg.continue_after_preemption, "max_idle_per_host": cfg.max_idle_per_host, "idle_timeout": cfg.idle_timeout,
             "split_handshake": cfg.split_handshake, "strict_is_open": cfg.strict_is_open, "ev_cancel": cfg.ev_cancel, "ev_dial_fail": cfg.ev_dial_fail,
-            "exec_polls_ready": cfg.exec_polls_ready, "ev_close": cfg.ev_close, "ev_upgrade": cfg.ev_upgrade, "max_ticks": cfg.max_ticks, "t_ms": cfg.t_ms, "burst": cfg.burst, "max_depth": cfg.max_depth, "macro_finish": cfg.macro_finish, "fine_ticks": cfg.fine_ticks, "prelude": cfg.prelude,
+            "exec_polls_ready": cfg.exec_polls_ready, "h1_only_protocol": cfg.h1_only_protocol, "ev_close": cfg.ev_close, "ev_upgrade": cfg.ev_upgrade, "max_ticks": cfg.max_ticks, "t_ms": cfg.t_ms, "burst": cfg.burst, "max_depth": cfg.max_depth, "macro_finish": cfg.macro_finish, "fine_ticks": cfg.fine_ticks, "prelude": cfg.prelude,
         },
         "history": hist.iter().map(|e| e.text()).collect::<Vec<_>>(),
     })
@@ -418,6 +433,7 @@ fn cfg_from_json(v: &serde_json::Value) -> Option<SimConfig> {
         split_handshake: b("split_handshake"),
         strict_is_open: b("strict_is_open"),
         exec_polls_ready: b("exec_polls_ready"),
+        h1_only_protocol: b("h1_only_protocol"),
         ev_cancel: b("ev_cancel"),
         ev_dial_fail: b("ev_dial_fail"),
         ev_close: b("ev_close"),
